@@ -4,6 +4,7 @@ import Dbg.Props.C09
 import Dbg.Model.Pipeline
 import Dbg.Lemmas.ShardTables
 import Dbg.Lemmas.ShardPipeline
+import Dbg.Lemmas.Idempotent
 /-! # C04 — Sharded assembly equals unsharded assembly
 
 **Proved** (`C04_sharded_eq_direct`, last theorem of this file): for every read set and every configuration inside
@@ -358,7 +359,8 @@ theorem C04_sharded_eq_direct (K P : Nat) (reads : List Seq) (perm : Option (Arr
     (sigmas : List (List Nat)) (dsigma : List Nat) (cfg : ShardCfg K P reads perm)
     (hs : SigmasOK K P reads perm st thr sigmas dsigma) :
     ∃ gs gd, sharded K P reads perm st thr prune sigmas = some gs ∧
-      direct K (reads.map plainRead) st thr dsigma = some gd ∧ SameParts K st gs.nodes gd.nodes := by
+      direct K (reads.map plainRead) st thr dsigma = some gd ∧ SameParts K st gs.nodes gd.nodes ∧
+      Graph.GInv gs ∧ CompressGraph.PalEnd gs := by
   have hK1 : 1 ≤ K := by have := cfg.k4; omega
   have hnb : Filter.NoBoundary (reads.map plainRead) := by
     intro r hr; obtain ⟨r0, _, rfl⟩ := List.mem_map.mp hr; rfl
@@ -413,7 +415,13 @@ theorem C04_sharded_eq_direct (K P : Nat) (reads : List Seq) (perm : Option (Arr
     apply Compress.perm_of_sigma
     rw [(Filter.removeCensored_exact st R).1, ← hR]; exact hs.directOK
   obtain ⟨outs, g', paths, outd, hb, hcg, hod, hsame⟩ := Compress.sharded_eq_direct_abstract wfR hesR Ts sw sumReduce (fun _ _ => true) (fun _ _ => rfl) Td hpd
-  refine ⟨g', ⟨K, outd.map (·.1), st⟩, ?_, ?_, hsame⟩
+  obtain ⟨outs2, g2, paths2, hb2, hcg2, hginv, hpalend⟩ := Compress.sharded_result_ginv wfR hesR Ts sw sumReduce (fun _ _ => true) (fun _ _ => rfl)
+  have houts := Compress.allBuilt_unique _ _ Ts outs outs2 hb hb2
+  subst houts
+  rw [hcg] at hcg2
+  have hg2 : g' = g2 := by have := Option.some.inj hcg2; exact congrArg Prod.fst this
+  subst hg2
+  refine ⟨g', ⟨K, outd.map (·.1), st⟩, ?_, ?_, hsame, hginv, hpalend⟩
   · -- unfold the sharded pipeline
     unfold sharded
     rw [hshards]
